@@ -6,14 +6,17 @@ from .. import coqenc as E
 from ..passes import Case, run_passes
 from ..runner import jval
 from ..valgen import Gen
-from ..terms import valida
+from ..terms import valida, Leaf, Bin
+from ..ruleterms import Tags, enc_arg1
 
 PROP = "C20"
-IMPORTS = "Py Check Html RunHtml Tree"
+IMPORTS = "Py Lang Defs Cond Dsl Check Path Cast RuleDefs Rule Html RunHtml Tree Inst TreeCond"
 THEOREMS = ["C20_html_balanced", "C20_escape_clean", "C20_html_escaped", "C20_code_clean", "C20_tree_each_rule_once", "C20_tree_parents",
-            "C20_tree_flat_nested_same_nodes", "C20_tree_required", "C20_tree_total", "C20_tree_subtree"]
+            "C20_tree_flat_nested_same_nodes", "C20_tree_required", "C20_tree_total", "C20_tree_subtree",
+            "C20_always_applicable_iff_all_and", "C20_key_facts", "C20_key_facts_order_independent", "C20_tree_required_from_conditions"]
 FACT_LEMMAS = []
-DEPENDS = ["Html.v", "RunHtml.v", "Tree.v", "Proofs/C20Proof.v", "Proofs/TreeProof.v", "Properties/C20.v", "Py.v", "Check.v"]
+DEPENDS = ["Html.v", "RunHtml.v", "Tree.v", "TreeCond.v", "Proofs/C20Proof.v", "Proofs/TreeProof.v", "Proofs/TreeCondProof.v", "Properties/C20.v", "Py.v", "Check.v",
+           "Lang.v", "Defs.v", "Cond.v", "Dsl.v", "Path.v", "Cast.v", "RuleDefs.v", "Rule.v", "Descr.v", "Inst.v", "Gen/TablesGen.v", "Gen/CallablesGen.v"]
 ASSUMPTIONS = ["str() / repr() of parts, conditions and types is supplied by the implementation (oracle); the tree assembly "
                "(to_tree) is checked by the model-free oracle only, the HTML writer is modelled and proved",
                "anchor_root is caller-supplied id text inserted as it is; anchors are drawn from [A-Za-z0-9_-]+"]
@@ -78,35 +81,45 @@ def gen_schema(g):
         keys = []
         if kind == "map":
             keys = g.r.sample(KEYS, g.r.randint(1, 3) if depth < 3 else 1)
-            conds.append(Value.dtype.equal_to(dict))
+            conds.append(Leaf("ValueDataType", "equal_to", [dict]))
             if g.r.random() < 0.7:
                 allowed = keys + ([g.r.choice(KEYS)] if g.r.random() < 0.3 else [])
-                conds.append(Value.allowed_keys(*allowed))
+                conds.append(Leaf("Value", "allowed_keys", list(allowed)))
             if g.r.random() < 0.7:
                 req = g.r.sample(keys, g.r.randint(1, len(keys)))
-                conds.append(Value.required_keys(*req))
+                conds.append(Leaf("Value", "required_keys", list(req)))
             if g.r.random() < 0.3:
-                conds.append(Value.keys_is_instance(str))
+                conds.append(Leaf("Value", "keys_is_instance", [str]))
         elif kind == "anymap":
-            conds.append(Value.dtype.equal_to(dict))
+            conds.append(Leaf("ValueDataType", "equal_to", [dict]))
         elif kind == "list":
-            conds.append(Value.dtype.equal_to(list))
+            conds.append(Leaf("ValueDataType", "equal_to", [list]))
             if g.r.random() < 0.5:
-                conds.append(Value.length.equal_to(g.r.randint(1, 3)) if g.r.random() < 0.5 else Value.length.in_([1, 2]))
+                conds.append(Leaf("ValueLength", "equal_to", [g.r.randint(1, 3)]) if g.r.random() < 0.5 else Leaf("ValueLength", "in_", [[1, 2]]))
         else:
-            conds.append(g.r.choice([Value.dtype.equal_to(str), Value.is_instance(int, float), Value.in_(["x<y", "a&b", 1]),
-                                     Value.dtype.in_([int, str]), Value.dtype.equal_to(int)]))
+            conds.append(g.r.choice([Leaf("ValueDataType", "equal_to", [str]), Leaf("Value", "is_instance", [int, float]),
+                                     Leaf("Value", "in_", [["x<y", "a&b", 1]]), Leaf("ValueDataType", "in_", [[int, str]]),
+                                     Leaf("ValueDataType", "equal_to", [int])]))
         g.r.shuffle(conds)
-        c = conds[0]
+        ct = conds[0]
         for x in conds[1:]:
-            c = c & x
-        if g.r.random() < 0.1 and len(conds) > 1:
-            c = conds[0] | conds[1]      # not always-applicable: its key conditions must be ignored
+            # and-combinations in either association: (a & b) & c, a & (b & c)
+            ct = Bin("and", ct, x) if g.r.random() < 0.7 else Bin("and", x, ct)
+        k = g.r.random()
+        if k < 0.1 and len(conds) > 1:
+            ct = Bin(g.r.choice(["or", "xor"]), conds[0], conds[1])      # not always-applicable: its key conditions must be ignored
+            req_eff, allowed_eff = [], []
+        elif k < 0.16 and len(conds) > 2:
+            # one `or` deep inside an and-tree makes the WHOLE condition not always-applicable
+            ct = Bin("and", Bin("or", conds[0], conds[1]), conds[2])
+            for x in conds[3:]:
+                ct = Bin("and", ct, x)
             req_eff, allowed_eff = [], []
         else:
             req_eff, allowed_eff = req, allowed
+        c = ct.build()
         d = doc()
-        rules.append(v.Rule(path=list(path), condition=c, doc=norm_doc(d) if d else d))
+        rules.append((v.Rule(path=list(path), condition=c, doc=norm_doc(d) if d else d), ct))
         info.append((tuple(path), req_eff, allowed_eff))
         if kind == "map":
             for k in keys:
@@ -118,7 +131,9 @@ def gen_schema(g):
             node(path + [ListValue()], depth + 1)
     node([], 0)
     g.r.shuffle(rules)
-    return v.Schema(rules), info
+    sch = v.Schema([r for r, _ in rules])
+    sch.cond_terms = {id(r): t for r, t in rules}     # the term each rule's condition was built from (kept on the harness side)
+    return sch, info
 
 
 # ---- the tree assembly (Tree.v): facts about each rule from the library's own helpers, assembly by the model ----
@@ -260,6 +275,26 @@ def tree_checks(schema, info, flat, nested, viol, d):
             viol.append(dict(d, what=f"required flag of {strs} is {n.get('required')!r}, expected {want[strs]}"))
 
 
+def always_case(rule, term, d):
+    """TreeCond.v: which key / type conditions of a rule's condition always apply (flatten, get_always_applicable_*), computed by the
+    model from the condition TERM and compared with what the library computes on the condition object."""
+    def D(c):
+        return (type(c).__name__, c.callable.name, list(c.callable.args), [(k, x) for k, x in c.callable.kwargs.items()])
+
+    def impl():
+        cnd = rule.condition
+        tl = cnd.get_always_applicable_type_like_conditions()
+        return ([(key, kc.callable.name == "required_keys") for kc in cnd.get_always_applicable_key_conditions() for key in kc.callable.args],
+                [D(i) for i in tl["key_data_type"]], [D(i) for i in tl["value_data_type"]])
+    out = E.run_outcome(impl)
+    try:
+        model = f"(run_always {term.coq(enc_arg1(Tags()))})"
+        return Case(dict(d, kind="always-applicable", cond=term.descr()[:300], impl=out[0] + ":" + repr(out[1])[:300], coq=model[:4000]),
+                    model, None, E.enc_res(out), out, out[0] == "ok" and bool(out[1][0]), key=("always", term.descr()))
+    except E.Unencodable:
+        return None
+
+
 def run(tier, seed, model_ok, spec_ok, replay=None):
     g = Gen(seed)
     v = valida()
@@ -276,6 +311,12 @@ def run(tier, seed, model_ok, spec_ok, replay=None):
             viol.append(dict(d, what=f"to_tree raised {type(e).__name__}: {e}"[:300]))
             continue
         dist["trees"] += 1
+        for rule in schema.rules:
+            term = schema.cond_terms.get(id(rule))
+            ac = always_case(rule, term, d) if term is not None else None
+            if ac:
+                cases.append(ac)
+                dist["always-applicable"] += 1
         tree_checks(schema, info, flat, nested, viol, d)
         for nst in (False, True):
             tc = tree_case(schema, nst, None, d)
